@@ -307,28 +307,73 @@ class Interp:
             self.spec_mode = was_spec
 
     def call_opaque(self, f: IFunc, nat, args, kwargs):
-        """Spec function with a hidden definition: UF on unbounded strings, definition on bounded
-        ones, the two linked by the definitional instance UF(origin) == body(chars)."""
+        """Spec function with a hidden definition.
+
+        ret "int"|"bool"|"str": uninterpreted on unbounded strings, the definition on bounded/concrete
+        ones, linked by the definitional instance UF(origin) == body(chars).
+        ret "list:str"|"list:path": always uninterpreted (the definition is what the *other* function of
+        a mutually recursive pair is verified against; see contracts/c18.py)."""
         ret = nat.__pyvc_opaque__
+        ctx = self.ctx
         args = [mk(a) for a in args]
-        unbounded = [a for a in args if isinstance(a, SV) and a.kind == "str"]
-        rs = {"int": z3.IntSort(), "bool": z3.BoolSort(), "str": z3.StringSort()}[ret]
-
-        def sort_of(a):
+        args = [sym.force(ctx, a) if isinstance(a, SOpt) else a for a in args]
+        terms: list = []
+        sorts: list = []
+        for a in args:
             if sym.is_strlike(a):
-                return z3.StringSort()
-            if sym.is_intlike(a):
-                return z3.IntSort()
-            if sym.is_boollike(a):
-                return z3.BoolSort()
-            raise Unsupported("opaque spec function argument type")
-
-        def term_of(a):
-            return sym.zstr(a) if sym.is_strlike(a) else sym.zint(a) if sym.is_intlike(a) else sym.zbool(a)
-
-        uf = sym.ufun("spec_" + f.qualname, *[sort_of(a) for a in args], rs)
+                terms.append(sym.zstr(a)); sorts.append(z3.StringSort())
+            elif sym.is_boollike(a):
+                terms.append(sym.zbool(a)); sorts.append(z3.BoolSort())
+            elif sym.is_intlike(a):
+                terms.append(sym.zint(a)); sorts.append(z3.IntSort())
+            elif isinstance(a, SDate):
+                terms.append(a.t); sorts.append(z3.IntSort())
+            elif isinstance(a, (SList, list, tuple)):
+                t = sym.list_term(ctx, a)
+                terms.append(t); sorts.append(t.sort())
+            elif isinstance(a, SMap):
+                it = a.ident_term()
+                if it is not None:
+                    terms.append(it); sorts.append(it.sort())
+                else:
+                    terms += [a.has, a.val]; sorts += [a.has.sort(), a.val.sort()]
+            elif isinstance(a, Rec) and a.cls_name == "Path":
+                terms.append(sym.zstr(a.fields["s"])); sorts.append(z3.StringSort())
+            elif isinstance(a, Opaque):
+                terms.append(a.t); sorts.append(a.t.sort())
+            else:
+                raise Unsupported(f"opaque spec function argument {type(a).__name__}")
+        reveal = getattr(self, "reveal", ())
+        if f.qualname in reveal and getattr(self, "reveal_depth", 0) == 0:
+            # one-level unfolding of the definition (the function whose contract *is* this definition)
+            loc = self.bind_params(f, args, kwargs, f.gl)
+            env = Env(f.gl, loc, None, f)
+            self.depth += 1
+            self.spec_mode += 1
+            self.reveal_depth = 1
+            try:
+                try:
+                    self.exec_block(f.node.body, env)
+                    return None
+                except _Return as r:
+                    return r.v
+            finally:
+                self.depth -= 1
+                self.spec_mode -= 1
+                self.reveal_depth = 0
+        if ret.startswith("list:"):
+            ety = {"str": sym.TStr(), "path": sym.TPath(), "int": sym.TInt()}[ret[5:]]
+            lty = sym.TListVal(ety)
+            uf = sym.ufun("spec_" + f.qualname, *sorts, lty.sort())
+            t = uf(*terms)
+            for fact in lty.facts(t):
+                ctx.assume(fact)
+            return lty.wrap(t)
+        rs = {"int": z3.IntSort(), "bool": z3.BoolSort(), "str": z3.StringSort()}[ret]
+        uf = sym.ufun("spec_" + f.qualname, *sorts, rs)
+        unbounded = [a for a in args if isinstance(a, (SV, SList, SMap)) and not sym.is_intlike(a) and not sym.is_boollike(a)]
         if unbounded:
-            return mk(SV(uf(*[term_of(a) for a in args]), ret))
+            return mk(SV(uf(*terms), ret))
         # bounded / concrete: the definition
         loc = self.bind_params(f, args, kwargs, f.gl)
         env = Env(f.gl, loc, None, f)
@@ -344,9 +389,9 @@ class Interp:
             self.depth -= 1
             self.spec_mode -= 1
         if any((isinstance(a, BStr) and a.origin is not None) or isinstance(a, str) for a in args):
-            t = term_of(val) if ret != "bool" else sym.truth_term(self.ctx, val)
+            t = sym.truth_term(ctx, val) if ret == "bool" else (sym.zstr(val) if ret == "str" else sym.zint(val))
             t = z3.BoolVal(t) if isinstance(t, bool) else t
-            self.ctx.assume(uf(*[term_of(a) for a in args]) == t)
+            ctx.assume(uf(*terms) == t)
         return val
 
     # ---------------------------------------------------------------- contracts at call sites
@@ -354,6 +399,16 @@ class Interp:
         from .spec import eval_clause, havoc_paths, snapshot
 
         self.used_contracts.add(f.key)
+        saved_reveal = getattr(self, "reveal", ())
+        self.reveal = ()  # definitions are only unfolded in the target's own clauses
+        try:
+            return self._call_by_contract(f, c, args, kwargs)
+        finally:
+            self.reveal = saved_reveal
+
+    def _call_by_contract(self, f: IFunc, c: dict, args, kwargs):
+        from .spec import eval_clause, havoc_paths, snapshot
+
         loc = self.bind_params(f, args, kwargs, f.gl)
         cname = f.qualname
         for p, ty in c.get("args", {}).items():
@@ -644,10 +699,10 @@ class Interp:
         o, spec = self._next_loop(s, env)
         it = self.eval(s.iter, env)
         it = sym.force(self.ctx, it)
-        if isinstance(it, SList) or (spec and spec.get("invariant")):
-            if not (spec and spec.get("invariant")):
-                raise Unsupported(f"for-loop over a symbolic-length list at line {s.lineno} needs an invariant")
+        if spec and spec.get("invariant") and getattr(self, "list_bound", None) is None:
             return self._loop_inv(s, env, o, spec, it)
+        if isinstance(it, SList) and not isinstance(mk(it.length), int) and getattr(self, "list_bound", None) is None:
+            raise Unsupported(f"for-loop over a symbolic-length list at line {s.lineno} needs an invariant")
         items = self.iterate(it, env, what="for")
         broke = False
         for n, x in enumerate(items):
@@ -831,6 +886,12 @@ class Interp:
         r = self.models.binop(self, type(e.op).__name__, a, b)
         if r is not MISSING:
             return r
+        if getattr(self, "list_bound", None) is not None and isinstance(e.op, ast.Add):
+            # bounded-symbolic tier: lists always have a concrete length (quantifier-free obligations)
+            if isinstance(a, SList) and isinstance(b, (SList, list)):
+                a = self.iterate(a)
+            if isinstance(b, SList) and isinstance(a, list):
+                b = self.iterate(b)
         return sym.binop(self.ctx, type(e.op).__name__, a, b)
 
     def e_UnaryOp(self, e, env):
@@ -950,9 +1011,9 @@ class Interp:
         if self.spec_mode and not isinstance(idx, slice):
             # specifications use total selection on symbolic containers (guards are the clause's business)
             if isinstance(v, SMap):
-                return sym.mk_elem(v.vty, z3.Select(v.val, v.kty.unwrap(self.ctx, idx)))
+                return sym.mk_elem(v.vty, z3.Select(v.val, v.kty.unwrap(self.ctx, idx)), self.ctx)
             if isinstance(v, SList) and (isinstance(mk(idx), SV) or (isinstance(mk(idx), int) and mk(idx) >= 0)):
-                return sym.mk_elem(v.ety, z3.Select(v.arr, sym.zint(idx)))
+                return sym.mk_elem(v.ety, z3.Select(v.arr, sym.zint(idx)), self.ctx)
         return sym.subscript(self.ctx, v, idx)
 
     def e_Slice(self, e, env):
@@ -987,7 +1048,7 @@ class Interp:
                 return self.class_attr(obj, obj.cls, name)
             raise PyRaise("AttributeError", f"{obj.cls_name}.{name}")
         if isinstance(obj, NullLogger):
-            return NativeRef(lambda *a, **k: None)
+            return _NULLFN
         if isinstance(obj, NativeRef):
             o = obj.obj
             if isinstance(o, type) and dataclasses.is_dataclass(o) and False:
@@ -1124,8 +1185,22 @@ class Interp:
         if isinstance(v, SV) and v.kind == "str":
             raise Unsupported(f"{what} over an unbounded symbolic string")
         if isinstance(v, SList):
-            # bounded case split only when the length is provably small
-            raise Unsupported(f"{what} over a symbolic-length list")
+            n = mk(v.length)
+            if isinstance(n, int):
+                return [sym.mk_elem(v.ety, z3.Select(v.arr, i), self.ctx) for i in range(n)]
+            bound = getattr(self, "list_bound", None)
+            if bound is None:
+                raise Unsupported(f"{what} over a symbolic-length list")
+            # bounded-symbolic tier: case split on the length up to the stated bound, longer lists are cut
+            self.bounded_cut = True
+            ln = sym.zint(n)
+            self.ctx.assume(ln <= bound)
+            k = 0
+            while k < bound:
+                if self.ctx.branch(ln == k, f"len=={k}"):
+                    break
+                k += 1
+            return [sym.mk_elem(v.ety, z3.Select(v.arr, i), self.ctx) for i in range(k)]
         r = self.models.iterate(self, v)
         if r is not MISSING:
             return r
@@ -1173,6 +1248,9 @@ class Interp:
 
         if isinstance(fn, IFunc):
             return self.call_ifunc(fn, args, kwargs)
+        if fn is _NULLFN:
+            self.used_models.add("A-LOG: logger calls are effect-free and do not raise")
+            return None
         if isinstance(fn, _spec.Prim):
             return fn.fn(self, args, kwargs, env)
         if isinstance(fn, BoundM):
@@ -1193,6 +1271,13 @@ class Interp:
 
 def _ghost_copy(g: dict) -> dict:
     return {k: (list(v) if isinstance(v, list) else v) for k, v in g.items()}
+
+
+class _NullFn:
+    pass
+
+
+_NULLFN = _NullFn()
 
 
 class _Partial:
